@@ -6,6 +6,7 @@ origins, the WriteCell calls (because they can panic) and the styles Fill sets.
   vxfw/center/center.go      Center.Draw
   vxfw/button/button.go      Button.Draw
   vxfw/textfield/textfield.go TextField.Draw
+  vxfw/list/list.go          Dynamic.Draw (sizes, child constraints and panics only; scrolling is C19)
 Core Lean only.
 
 The line scanners (bufio.Scanner, the soft/hard wrap scanners — property C16) and
@@ -107,15 +108,55 @@ def drawField (a : Arith) (c : Ctx) (chars : List Cell) : Except Panic Surface :
   if c.maxW == 0 || c.maxH == 0 then .ok emptySurface
   else fieldLoop a chars 0 (newSurface a c.maxW 1)
 
-/-- The built-in widgets (contents already scanned for the constraint they will receive; Center
-and Button pass their Max on unchanged). -/
+mutual
+/-- The built-in widgets — every type of a vxfw sub-package with a `Draw` method
+(`Gen.SurfaceFacts.drawWidgets`, `Props.C14.widget_inventory_complete`).  Contents are already
+scanned for the constraint they will receive (Center and Button pass their Max on unchanged,
+Dynamic hands every child `Max.Width − colOffset` × unbounded).
+
+`dynamic cursor gap kids` is `list.Dynamic` with `DrawCursor = cursor`, `Gap = gap`; `kids` are the
+widgets its Builder returned *and Draw drew*, in draw order.  Which children get drawn depends on the
+scroll state and the heights (property C19); for the size contract it is a parameter, so the
+theorems hold for every such list. -/
 inductive Widget where
   | text (hard : Bool) (st : Nat) (lines : List (List Cell))
   | rich (hard : Bool) (lines : List (List Cell))
   | field (chars : List Cell)
   | center (child : Widget)
   | button (st : Nat) (lines : List (List Cell))
-deriving Repr
+  | dynamic (cursor : Bool) (gap : Int) (kids : Widgets)
+/-- The drawn children of a Dynamic. -/
+inductive Widgets where
+  | nil
+  | cons (w : Widget) (rest : Widgets)
+end
+
+def Widgets.toList : Widgets → List Widget
+  | .nil => []
+  | .cons w rest => w :: rest.toList
+
+def Widgets.ofList : List Widget → Widgets
+  | [] => .nil
+  | w :: rest => .cons w (Widgets.ofList rest)
+
+/-- `package.Type` of the Go widget a constructor models. -/
+def Widget.goName : Widget → String
+  | .text .. => "text.Text"
+  | .rich .. => "richtext.RichText"
+  | .field .. => "textfield.TextField"
+  | .center .. => "center.Center"
+  | .button .. => "button.Button"
+  | .dynamic .. => "list.Dynamic"
+
+/-- The Go widgets the model covers, sorted. -/
+def modelledWidgets : List String :=
+  ["button.Button", "center.Center", "list.Dynamic", "richtext.RichText", "text.Text", "textfield.TextField"]
+
+/-- `if ctx.Max.HasUnboundedHeight() || ctx.Max.HasUnboundedWidth() { panic(…) }` as the first
+statement of `name`'s Draw: which widgets have it is read from the source
+(`Gen.SurfaceFacts.boundedPanicWidgets`). -/
+def boundedPanic (name : String) (c : Ctx) : Bool :=
+  Gen.SurfaceFacts.boundedPanicWidgets.contains name && (c.maxH == unbounded || c.maxW == unbounded)
 
 /-- Which comparison each height guard uses, from the source. -/
 def textMode (hard : Bool) (st : Nat) : TextMode :=
@@ -137,6 +178,35 @@ def centerAround (a : Arith) (c : Ctx) (ch : Surface) : Surface :=
   let offY := (c.maxH - ch.h) / 2
   addChild s (Int.ofNat offX.toNat) (Int.ofNat offY.toNat) ch
 
+/-- `colOffset`: 2 when Dynamic draws its own cursor gutter. -/
+def dynOff (cursor : Bool) : UInt16 := if cursor then 2 else 0
+
+/-- The constraint Dynamic hands to every child: `Max{Width: ctx.Max.Width - uint16(colOffset),
+Height: math.MaxUint16}` (uint16 subtraction: wraps for `Max.Width < colOffset`). -/
+def dynChildCtx (cursor : Bool) (c : Ctx) : Ctx :=
+  { minW := 0, minH := 0, maxW := c.maxW - dynOff cursor, maxH := unbounded }
+
+/-- `s.AddChild(colOffset, ah, chS); ah += int(chS.Size.Height) + d.Gap` over the drawn children. -/
+def dynPlace (off gap : Int) : List Surface → Int → Surface → Surface
+  | [], _, s => s
+  | ch :: rest, ah, s => dynPlace off gap rest (ah + Int.ofNat ch.h.toNat + gap) (addChild s off ah ch)
+
+/-- `cur := NewSurface(ctx.Max.Width, ch.Surface.Size.Height, …); cur.AddChild(colOffset, 0, ch.Surface);
+s.Children[idx] = NewSubSurface(0, ch.Origin.Row, cur)` for the cursored child — the first drawn
+child in the state modelled here (cursor = top).  The glyph cells are not modelled. -/
+def dynWrapFirst (a : Arith) (c : Ctx) (off : Int) : Kids → Kids
+  | .nil => .nil
+  | .cons _ row z ch rest => .cons 0 row z (addChild (newSurface a c.maxW ch.h) off 0 ch) rest
+
+/-- Dynamic's surface around the already drawn children, for a list that starts at the top
+(`scroll.offset = 0`, nothing pending): `NewSurface(Max.Width, Max.Height)`, children stacked from
+row 0.  Not modelled (no effect on any size): the blank gutter cells and the cursor glyph. -/
+def dynAround (a : Arith) (cursor : Bool) (gap : Int) (c : Ctx) (chs : List Surface) : Surface :=
+  let off : Int := Int.ofNat (dynOff cursor).toNat
+  match dynPlace off gap chs 0 (newSurface a c.maxW c.maxH) with
+  | .mk w h b k => .mk w h b (if cursor then dynWrapFirst a c off k else k)
+
+mutual
 /-- `Draw(ctx)`. `mode` supplies the text modes so that theorems can also be stated for a fixed
 arithmetic; `draw` below instantiates it from the source. -/
 def drawWith (a : Arith) (tm : Bool → Nat → TextMode) (rm : Bool → TextMode) : Widget → Ctx → Except Panic Surface
@@ -144,18 +214,35 @@ def drawWith (a : Arith) (tm : Bool → Nat → TextMode) (rm : Bool → TextMod
   | .rich hard lines, c => drawText a (rm hard) c lines
   | .field chars, c => drawField a c chars
   | .center child, c =>
-      if c.maxH == unbounded || c.maxW == unbounded then .error .explicit
+      if boundedPanic "center.Center" c then .error .explicit
       else
         match drawWith a tm rm child { minW := 0, minH := 0, maxW := c.maxW, maxH := c.maxH } with
         | .error e => .error e
         | .ok ch => .ok (centerAround a c ch)
   | .button st lines, c =>
-      if c.maxH == unbounded || c.maxW == unbounded then .error .explicit
+      if boundedPanic "button.Button" c then .error .explicit
       else
         -- text.New(label) is soft-wrapped; center.Draw(ctx); s.Fill(style)
         match drawText a (tm false st) { minW := 0, minH := 0, maxW := c.maxW, maxH := c.maxH } lines with
         | .error e => .error e
         | .ok ch => .ok (fillStyle (centerAround a c ch) st)
+  | .dynamic cursor gap kids, c =>
+      if boundedPanic "list.Dynamic" c then .error .explicit
+      else
+        match drawKids a tm rm kids (dynChildCtx cursor c) with
+        | .error e => .error e
+        | .ok chs => .ok (dynAround a cursor gap c chs)
+/-- The children of a Dynamic, drawn in order; the first panic propagates. -/
+def drawKids (a : Arith) (tm : Bool → Nat → TextMode) (rm : Bool → TextMode) : Widgets → Ctx → Except Panic (List Surface)
+  | .nil, _ => .ok []
+  | .cons w rest, c =>
+      match drawWith a tm rm w c with
+      | .error e => .error e
+      | .ok s =>
+        match drawKids a tm rm rest c with
+        | .error e => .error e
+        | .ok l => .ok (s :: l)
+end
 
 /-- The model of the current source. -/
 def draw (w : Widget) (c : Ctx) : Except Panic Surface := drawWith srcArith textMode richMode w c
